@@ -34,6 +34,8 @@ use h_util::{arg, json_str, Rng};
 use prost::Message;
 use refsql_gen::*;
 
+/// prefix of at most n bytes that ends on a character boundary
+fn cut(s: &str, mut n: usize) -> &str { if n >= s.len() { return s; } while !s.is_char_boundary(n) { n -= 1; } &s[..n] }
 fn kind_name(s: &str) -> String { s.chars().take_while(|c| c.is_ascii_alphanumeric() || *c == '_').collect() }
 fn dbg_kind<T: std::fmt::Debug>(v: &T) -> String { kind_name(&format!("{v:?}")) }
 
@@ -480,10 +482,10 @@ fn expr_case(ctx: &SessionContext, id: usize, name: &str, key: &str, e: &Expr) {
     }));
     let (extra, why, ok) = match r { Ok(x) => x, Err(p) => ("\"panic\":true".to_string(), Some(format!("panic: {}", panic_msg(p))), false) };
     let mut text = format!("{e:?}");
-    if text.len() > 600 { text.truncate(600); text.push_str("..."); }
+    if text.len() > 600 { let k = cut(&text, 600).len(); text.truncate(k); text.push_str("..."); }
     let tie = catch_unwind(AssertUnwindSafe(|| tie_of(ctx, e))).ok().flatten().unwrap_or("null".into());
     println!("{{\"k\":\"expr\",\"id\":{id},\"name\":{},\"shape\":\"{}\",\"expr\":{},{extra},\"key\":{},\"tie\":{tie},\"why\":{},\"ok\":{ok}}}",
-        json_str(name), shape(e), json_str(&text), json_str(key), why.map(|w| json_str(&w[..w.len().min(700)])).unwrap_or("null".into()));
+        json_str(name), shape(e), json_str(&text), json_str(key), why.map(|w| json_str(cut(&w, 700))).unwrap_or("null".into()));
 }
 
 fn scalar_stream() {
@@ -549,7 +551,7 @@ fn diff_plans(a: &LogicalPlan, b: &LogicalPlan) -> String {
     if std::mem::discriminant(a) != std::mem::discriminant(b) { return format!("node kinds differ: {} vs {}", dbg_kind(a), dbg_kind(b)); }
     let (ea, eb) = (a.expressions(), b.expressions());
     for (x, y) in ea.iter().zip(eb.iter()) {
-        if x != y { let (dx, dy) = (format!("{x:?}"), format!("{y:?}")); return format!("expression of {} differs: {} vs {}", kind_name(&format!("{}", a.display())), &dx[..dx.len().min(500)], &dy[..dy.len().min(500)]); }
+        if x != y { let (dx, dy) = (format!("{x:?}"), format!("{y:?}")); return format!("expression of {} differs: {} vs {}", kind_name(&format!("{}", a.display())), cut(&dx, 500), cut(&dy, 500)); }
     }
     if ea.len() != eb.len() { return format!("{}: number of expressions differs", dbg_kind(a)); }
     let (ia, ib) = (a.inputs(), b.inputs());
@@ -597,6 +599,7 @@ async fn check_plan(ctx: &SessionContext, fresh: &SessionContext, stage: &'stati
         },
         Err(e) => fail(&mut out, format!("binary encoding succeeded but JSON encoding failed: {e}")),
     }
+    let limited = text.contains("Limit:");
     if exec && out.ok {
         let r1 = async { ctx.execute_logical_plan(p.clone()).await?.collect().await }.await;
         let r2 = async { fresh.execute_logical_plan(back.clone()).await?.collect().await }.await;
@@ -605,7 +608,9 @@ async fn check_plan(ctx: &SessionContext, fresh: &SessionContext, stage: &'stati
                 let (mut x, mut y) = (rows_of(&a), rows_of(&b));
                 out.rows = x.len() as i64;
                 x.sort(); y.sort();
-                if x != y { fail(&mut out, format!("results differ: original {} rows {:?} / decoded {} rows {:?}", x.len(), &x[..x.len().min(6)], y.len(), &y[..y.len().min(6)])); }
+                // a LIMIT / OFFSET over a sort with ties may legitimately keep different rows on every execution: compare the row count only
+                if limited { if x.len() != y.len() { fail(&mut out, format!("row counts differ: original {} / decoded {}", x.len(), y.len())); } }
+                else if x != y { fail(&mut out, format!("results differ: original {} rows {:?} / decoded {} rows {:?}", x.len(), &x[..x.len().min(6)], y.len(), &y[..y.len().min(6)])); }
             }
             (Err(_), Err(_)) => {}
             (Ok(_), Err(e)) => fail(&mut out, format!("the decoded plan fails to execute: {e}")),
@@ -642,6 +647,7 @@ fn corpus() -> Vec<(&'static str, bool)> {
         ("SELECT s, b, sum(x), grouping(s) FROM a GROUP BY GROUPING SETS ((s), (b), ())", true),
         ("SELECT x FROM a UNION SELECT x FROM b", true),
         ("SELECT x FROM a UNION ALL SELECT z FROM b", true),
+        ("(SELECT x FROM a UNION ALL SELECT z FROM b) UNION ALL SELECT y FROM a", true),
         ("SELECT x FROM a INTERSECT SELECT x FROM b", true),
         ("SELECT x FROM a EXCEPT SELECT x FROM b", true),
         ("SELECT DISTINCT s FROM a", true),
@@ -718,16 +724,16 @@ fn fixed_tables() -> Vec<Tab> {
 fn print_plan_case(id: &str, stream: &str, sql: &str, tp: usize, outs: &[PlanOut], plan_err: Option<String>) {
     let ok = outs.iter().all(|o| o.ok);
     let stages: Vec<String> = outs.iter().map(|o| {
-        let mut t = o.text.clone(); if t.len() > 12000 { t.truncate(12000); t.push_str("..."); }
-        let diff = match &o.diff { Some(d) => format!("[{}]", d.iter().map(|(x, y)| format!("[{},{}]", json_str(&x[..x.len().min(1200)]), json_str(&y[..y.len().min(1200)]))).collect::<Vec<_>>().join(",")), None => "null".into() };
+        let mut t = o.text.clone(); if t.len() > 12000 { let k = cut(&t, 12000).len(); t.truncate(k); t.push_str("..."); }
+        let diff = match &o.diff { Some(d) => format!("[{}]", d.iter().map(|(x, y)| format!("[{},{}]", json_str(cut(&x, 1200)), json_str(cut(&y, 1200)))).collect::<Vec<_>>().join(",")), None => "null".into() };
         format!("{{\"stage\":\"{}\",\"ok\":{},\"bytes\":{},\"rows\":{},\"diff\":{diff},\"skipped\":{},\"why\":{},\"plan\":{}}}", o.stage, o.ok, o.bytes, o.rows,
-            o.skipped.as_ref().map(|s| json_str(&s[..s.len().min(300)])).unwrap_or("null".into()),
-            o.why.as_ref().map(|s| json_str(&s[..s.len().min(12000)])).unwrap_or("null".into()), if o.ok && o.skipped.is_none() { "null".to_string() } else { json_str(&t) })
+            o.skipped.as_ref().map(|s| json_str(cut(&s, 300))).unwrap_or("null".into()),
+            o.why.as_ref().map(|s| json_str(cut(&s, 12000))).unwrap_or("null".into()), if o.ok && o.skipped.is_none() { "null".to_string() } else { json_str(&t) })
     }).collect();
     let nodes: Vec<String> = outs.first().map(|o| o.text.lines().map(|l| kind_name(l.trim_start())).collect()).unwrap_or_default();
     let mut kinds: Vec<String> = nodes; kinds.sort(); kinds.dedup();
     println!("{{\"k\":\"plan\",\"id\":\"{id}\",\"stream\":\"{stream}\",\"tp\":{tp},\"sql\":{},\"plan_err\":{},\"nodes\":[{}],\"stages\":[{}],\"ok\":{ok}}}",
-        json_str(sql), plan_err.map(|e| json_str(&e[..e.len().min(300)])).unwrap_or("null".into()),
+        json_str(sql), plan_err.map(|e| json_str(cut(&e, 300))).unwrap_or("null".into()),
         kinds.iter().map(|k| format!("\"{k}\"")).collect::<Vec<_>>().join(","), stages.join(","));
 }
 
